@@ -242,7 +242,7 @@ theorem sim_handleEnd {s : Fmt.St} {t : TState} {dt : Option Str} (h : Sim s t d
     apply sim_popTo n _ h
     rw [List.take_of_length_le (by simp [names])]
     simpa [names] using hc
-  · simp only [hc, Bool.not_false, if_true, if_false]
+  · simp only [hc, Bool.not_false, if_true]
     exact h
 
 /-! ### text-like callbacks -/
